@@ -15,7 +15,7 @@ STATE_CLAUSES = {
     "C18": [],
     "C01": ["feasible", "busy_op", "proc_inner", "past"],
     "C02": ["busy_op", "no_overdue"],
-    "C03": ["placement", "loc", "mach_hold", "agv_hold", "claims", "flags", "agv_phase"],
+    "C03": ["placement", "loc", "mach_hold", "agv_hold", "claims", "flags", "agv_phase", "agv_load"],
     "C05": ["placement", "loc", "mach_hold", "agv_hold", "claims", "capacity", "flags", "feasible", "no_overdue",
             "past", "busy_op", "proc_inner", "output_done", "outages", "outage_nonneg", "agv_phase", "idle_unclaimed",
             "sto_ok"],
@@ -28,7 +28,7 @@ STATE_CLAUSES = {
     "C20": [],
 }
 EVENT_CLAUSES = {
-    "C04": [],
+    "C04": ["transit_side", "transit_claim"],
     "C18": [],
     "C01": ["clock", "transit_side"],
     "C02": ["work", "machine_outage", "machine_release", "due", "clock"],
@@ -130,8 +130,9 @@ def _worker(args):
     for k, pos, name, s in sv[:50]:
         out["violations"].append({"kind": "state:" + name, "detail": "clause %s false at %s" % (name, pos),
                                   "replay": replay_of(k, state=s, position=pos)})
-    if prop == "C01":
-        # hypothesis of the C01 theorems: the compiled initial state of every episode is fresh
+    if prop in ("C01", "C04"):
+        # hypothesis of the C01/C04 theorems: the compiled initial state of every episode is fresh (C04: fresh2)
+        clause = "fresh" if prop == "C01" else "fresh2"
         nfresh = 0
         for e in eps:
             if e.first < e.last:
@@ -139,9 +140,10 @@ def _worker(args):
                 drv.set_codec(r0.codec)
                 bits = drv.ask("M " + r0.pre).strip("()").split()
                 nfresh += 1
-                if bits[trace.CLAUSES.index("fresh")] != "1":
-                    out["violations"].append({"kind": "state:fresh", "detail": "the initial state of the episode is not "
-                                              "fresh (hypothesis of the C01 theorems)", "replay": replay_of(e.first, state=r0.pre)})
+                if bits[trace.CLAUSES.index(clause)] != "1":
+                    out["violations"].append({"kind": "state:" + clause, "detail": "the initial state of the episode is not "
+                                              "%s (hypothesis of the %s theorems)" % (clause, prop),
+                                              "replay": replay_of(e.first, state=r0.pre)})
         out["fresh_initial_states"] = nfresh
     if want_events:
         st = {}
@@ -546,7 +548,7 @@ def c12(ctx):
 
 def c04(ctx):
     sm_check(ctx, n_quick=200, extra={"hook": "c04", "record_env": True})
-    keep_only(ctx, lambda v: not v["kind"].startswith("outcome:") and not v["kind"].startswith("state:"))
+    keep_only(ctx, lambda v: not v["kind"].startswith("outcome:"))
     _merge_hook(ctx, "c04_")
     if ctx.broken_correspondence and not ctx.violations:
         # the correspondence is broken and no clause of the property failed on the sampled episodes: directed
